@@ -46,6 +46,8 @@ TIMEOUT = {'quick': 20, 'thorough': 30}
 # the same with upper-case parameter names / dat_path a bare string when there is exactly one raw file / absolute paths
 # a params.py that first assigns upper-case names to wrong values and then the lower-case names (read_python lower-cases the
 # keys in insertion order: the later assignment wins), gives dir_path explicitly, an integer sample rate, no offset when 0
+NEAR_RESERVED = ['timestamps', 'templates_orig', 'amplitudes_uV', 'clusters_old', 'samples2', 'times_s', 'my_times',
+                 'times_reordered_v2', 'template', 'amplitude']
 ROUTES = ['kwargs', 'params', 'params_alt', 'params_dup']
 ID_DTYPES = ['uint16', 'uint32', 'int32', 'int64']
 TIME_DTYPES = ['uint64', 'int64', 'int32']
@@ -179,6 +181,11 @@ def _mk(rng, **force):
         files['spike_wrong.npy'] = {'dtype': 'int32', 'shape': [ns + 1], 'data': list(range(ns + 1))}
         if rng.random() < 0.5:
             files['spike_mat.npy'] = {'dtype': 'float32', 'shape': [ns, 2], 'data': [float(rng.randint(0, 9)) for _ in range(2 * ns)]}
+        # extra attributes whose names merely BEGIN with (or contain) a reserved name: only the exact names
+        # clusters / templates / samples / times / times_reordered / amplitudes are skipped (seeded change C04-m5)
+        for nm in rng.sample(NEAR_RESERVED, rng.randint(1, 3)):
+            files['spike_%s.npy' % nm] = {'dtype': rng.choice(['float64', 'int32']), 'shape': [ns],
+                                          'data': [rng.randint(0, 9) for _ in range(ns)]}
     if o['nan']:
         for name in list(files):
             if name in ('amplitudes.npy', 'similar_templates.npy', 'spike_foo.npy', 'spike_mat.npy') or name.startswith('spikes.amps'):
@@ -311,6 +318,26 @@ def _abstract_path(p, d):
     return D4.DIR + p[len(d):] if (p == d or p.startswith(d + os.sep)) else p
 
 
+def _traces_obs(np, m):
+    """model.traces[:] — read after the model's reader object has already answered a channel-restricted read, a
+    derived column view and a plain read (earlier reads must not change later answers); if the two full reads
+    differ the second, changed one is what is reported."""
+    if m.traces is None:
+        return None
+    first = np.array(m.traces[:])
+    nch = int(m.traces.shape[1]) if len(m.traces.shape) > 1 else 1
+    try:
+        m.traces[0:1, [nch - 1]]
+        m.traces[:, [0]]
+        m.traces[-1:]
+    except Exception:  # noqa
+        pass
+    second = np.array(m.traces[:])
+    if first.shape != second.shape or first.dtype != second.dtype or not np.array_equal(first, second, equal_nan=True):
+        return _ta(second)
+    return _ta(first)
+
+
 def run_case(case):
     import numpy as np
     from phylib.io.model import TemplateModel
@@ -339,7 +366,7 @@ def run_case(case):
             'probes': _ta(m.channel_probes), 'tdata': _ta(np.array(m.sparse_templates.data)),
             'tcols': _ta(m.sparse_templates.cols), 'wm': _ta(m.wm), 'wmi': _ta(m.wmi), 'similar': _ta(m.similar_templates),
             'attrs': sorted((k, _ta(v)) for k, v in m.spike_attributes.items()),
-            'traces': _ta(np.array(m.traces[:])) if m.traces is not None else None,
+            'traces': _traces_obs(np, m),
             'reordered': _ta(m.spike_times_reordered),
             'ctor': {'dir': _abstract_path(m.dir_path, d), 'dats': [_abstract_path(x, d) for x in m.dat_path],
                      'dtype': np.dtype(m.dtype).name, 'offset': int(m.offset), 'rate': D.tok(float(m.sample_rate)),
@@ -453,7 +480,8 @@ def shrink(case):
                 'whitening_mat_inv.npy', 'spike_foo.npy', 'spike_wrong.npy', 'spike_mat.npy', 'spike_times_reordered.npy',
                 'pc_features.npy', 'template_features.npy']
     for name in list(ds['files']):
-        if name in optional or name.startswith(('spikes.amps', 'channels.shanks', 'channels.probes')):
+        if name in optional or name.startswith(('spikes.amps', 'channels.shanks', 'channels.probes')) or \
+                name in ['spike_%s.npy' % nm for nm in NEAR_RESERVED]:
             c = copy.deepcopy(ds)
             del c['files'][name]
             if name == 'whitening_mat.npy':
